@@ -8,7 +8,7 @@ open Driver
 def runCase (lines : Array String) : Array String :=
   lines.map fun l =>
     match words l with
-    | [sc, _, _] => if ["regs", "once", "waiters", "seq", "hooks", "types", "obs", "seqcancel"].contains sc then sc ++ " ok" else "bad-op " ++ l
+    | [sc, _, _] => if ["regs", "once", "waiters", "seq", "hooks", "types", "obs", "seqcancel", "seqburst"].contains sc then sc ++ " ok" else "bad-op " ++ l
     | _ => "bad-op " ++ l
 
 end Driver.StressDrv
